@@ -99,6 +99,10 @@ fn build(case: &Case) -> Scenario {
     scn.opts.inflight = case.inflight;
     scn.opts.channel_cap = 1024;
     scn.opts.pending_throttle_us = case.throttle_us;
+    if case.throttle_us >= 100_000 {
+        // the idle ping must not come while the pending queue is still being replayed at 0.4 s per request
+        scn.opts.keep_alive_s = 60;
+    }
     scn.snap = SnapLevel::Full;
     scn.conns.clear();
     for (i, c) in case.conns.iter().enumerate() {
@@ -153,7 +157,7 @@ fn build(case: &Case) -> Scenario {
             act: act_of(op),
         });
     }
-    scn.horizon_ms = 60_000;
+    scn.horizon_ms = if scn.opts.keep_alive_s > 5 { 400_000 } else { 60_000 };
     scn
 }
 
